@@ -444,7 +444,13 @@ create_unique_client_name (BusRegistry *registry,
       if (!_dbus_string_append_int (str, next_minor_number))
         return FALSE;
 
-      next_minor_number += 1;
+      /* Wrap to 0 without relying on signed overflow (undefined behaviour):
+       * the check at the top of the loop then moves on to the next
+       * major number */
+      if (next_minor_number == _DBUS_INT_MAX)
+        next_minor_number = 0;
+      else
+        next_minor_number += 1;
 
       /* Check if a client with the name exists */
       if (bus_registry_lookup (registry, str) == NULL)
